@@ -82,8 +82,36 @@ fn gen(rng: &mut Rng, _idx: u64, tier: Tier) -> Case {
             lines.push((dt, b, format!("junk:{}", tag)));
         }
     };
-    for l in valid {
+    // a receiver-time-stamped feed ("@<12 hex ticks><frame>;", 12 MHz ticks following the simulated clock):
+    // valid lines carry increasing time stamps, some junk lines carry a time stamp slightly ahead
+    let stamped = rng.chance(0.3);
+    let mut clock_us: i64 = rng.range(0, 1 << 36);
+    let stamp = |t_us: i64, frame_hex: &str| -> Vec<u8> { format!("@{:012X}{};\n", (t_us * 12) & 0xFFFF_FFFF_FFFF, frame_hex).into_bytes() };
+    // a long run of consecutive junk lines somewhere in the stream
+    let burst_at = if rng.chance(0.15) { Some(rng.below(valid.len() as u64 + 1) as usize) } else { None };
+    for (vi, mut l) in valid.into_iter().enumerate() {
+        if burst_at == Some(vi) {
+            for _ in 0..rng.range(60, 300) {
+                let k = *rng.pick(&["empty", "blank", "text", "hex13", "hex27", "high-bytes", "lone-cr", "truncated-frame", "semicolon-only", "nul"]);
+                lines.push((0, gen::junk(rng, k), format!("junk:burst-{}", k)));
+            }
+        }
         push_junk(rng, &mut lines, &mut acs);
+        clock_us += l.0;
+        if stamped {
+            let c = refm::classify(&l.1[..l.1.len() - 1]);
+            if let Some(f) = &c.frame {
+                if rng.chance(0.25) {
+                    // rejected 26/40-digit line stamped a little ahead of the feed
+                    let mut bad = f.clone();
+                    if matches!(c.df, 11 | 17 | 18) { let n = bad.len() * 8; modes::flip_bit(&mut bad, rng.range(9, n as i64 - 24) as usize); if modes::syndrome(&bad) >> 7 == 0 { modes::flip_bit(&mut bad, 40); } } else { bad.truncate(7); if modes::df_of(&bad) < 16 { bad = vec![0xFF; 7]; } }
+                    let ahead = rng.range(1, 900_000);
+                    let bl = stamp(clock_us + ahead, &modes::to_hex(&bad));
+                    if !kept(&bl[..bl.len() - 1]) { lines.push((0, bl, "junk:junk-stamped-ahead".into())); }
+                }
+                l.1 = stamp(clock_us, &modes::to_hex(f));
+            }
+        }
         lines.push(l);
     }
     push_junk(rng, &mut lines, &mut acs);
